@@ -20,8 +20,11 @@
      - involutions: flip_invol, flip_mirror_ok, mirror_env_invol, mirror_st_invol, mirror_st_ok_mirror
      - EndZ under endz_strict: mirror_sem_endz_to_end, mirror_sem_endz_strict_partial,
        mirror_find_endz_strict_partial
-     - NOT symmetric: mirror_balance_example (capture-recording balancing groups),
-       mirror_endz_no_mirror_anchor (non-strict EndZ has no mirror anchor)
+     - balancing groups (?<g-u>...): mirror_balance_span (the recorded interval mirrors, after the
+       repair of transferCapture's "end <= start2" branch in /repo cd1c469), covered by the theorems;
+       mirror_balance_example is a concrete instance
+     - NOT expressible: mirror_endz_no_mirror_anchor (non-strict EndZ has no mirror anchor)
+   Fragment mirror_ok excludes ONLY: non-strict EndZ, single-character loops with negative minimum.
 
    All lemma names are prefixed mirror_/flip_ (topic prefix). *)
 From Coq Require Import ZifyBool.
@@ -99,11 +102,10 @@ Definition opt_forall (f : node -> bool) (o : option node) : bool :=
   match o with Some x => f x | None => true end.
 
 (* The fragment the mirror theorem covers.  Excluded:
-     - the anchor EndZ (no mirror anchor exists in the node language);
-     - balancing groups (?<g-u>...) that RECORD a capture (u <> -1 and g <> -1): [balance_span] is
-       not mirror-symmetric (see mirror_balance_example);  pure pops (?<-u>...) are covered;
+     - the anchor EndZ (no mirror anchor exists in the node language; covered under endz_strict);
      - single-character loops with a negative minimum (never produced by the parser; a negative
-       minimum would let the loop walk out of the text). *)
+       minimum would let the loop walk out of the text).
+   Everything else is covered, including balancing groups (?<g-u>...) and pure pops (?<-u>...). *)
 Fixpoint mirror_ok (t : node) : bool :=
   match t with
   | NChar _ _ _ => true
@@ -117,7 +119,7 @@ Fixpoint mirror_ok (t : node) : bool :=
   | NConcat _ l => forallb mirror_ok l
   | NAlternate _ l => forallb mirror_ok l
   | NLoop _ _ _ _ r => mirror_ok r
-  | NCapture _ g u r => ((u =? -1) || (g =? -1)) && mirror_ok r
+  | NCapture _ _ _ r => mirror_ok r
   | NGroup r => mirror_ok r
   | NPosLook _ r => mirror_ok r
   | NNegLook _ r => mirror_ok r
@@ -490,6 +492,26 @@ Qed.
 Lemma mirror_span_ok : forall a b, 0 <= a <= n -> 0 <= b <= n -> span_ok n (span a b).
 Proof. intros a b Ha Hb. unfold span_ok, span. cbn [fst snd]. lia. Qed.
 
+(* balancing groups: the interval recorded for (?<g-u>...) mirrors (transferCapture after the fix of
+   its "end <= start2" branch: all three branches are the mirror images of one another) *)
+Lemma mirror_balance_span : forall a b u, 0 <= snd u ->
+  balance_span (n - a) (n - b) (mirror_span n u) = mirror_span n (balance_span a b u).
+Proof.
+  intros a b [s2 l2] Hl. unfold balance_span, span, mirror_span. cbn [fst snd] in *.
+  destruct (s2 + l2 <=? Z.min a b) eqn:E1; destruct (Z.min a b + Z.abs (b - a) <=? s2) eqn:E2;
+    destruct (n - s2 - l2 + l2 <=? Z.min (n - a) (n - b)) eqn:E3;
+    destruct (Z.min (n - a) (n - b) + Z.abs (n - b - (n - a)) <=? n - s2 - l2) eqn:E4;
+    cbn [fst snd]; try (f_equal; lia); exfalso; lia.
+Qed.
+
+Lemma mirror_balance_span_ok : forall a b u, 0 <= a <= n -> 0 <= b <= n -> span_ok n u ->
+  span_ok n (balance_span a b u).
+Proof.
+  intros a b [s2 l2] Ha Hb Hu. unfold span_ok, balance_span, span in *. cbn [fst snd] in *.
+  destruct (s2 + l2 <=? Z.min a b) eqn:E1; [cbn [fst snd]; lia|].
+  destruct (Z.min a b + Z.abs (b - a) <=? s2) eqn:E2; cbn [fst snd]; lia.
+Qed.
+
 Lemma mirror_sem_ref : forall o g s, st_ok e s ->
   sem_ref e' (flip_opt o) g (mirror_st e s) = map (mirror_st e) (sem_ref e o g s).
 Proof.
@@ -773,16 +795,20 @@ Proof.
     destruct (m =? 0).
     + now apply mirror_iter_ok.
     + apply mirror_bindr_ok; [now apply IH|]. intros a Ha. now apply mirror_iter_ok.
-  - (* Capture *) cbn [sem]. apply andb_prop in Ht. destruct Ht as [Hgu Ht].
+  - (* Capture *) cbn [sem].
     destruct (u =? -1) eqn:Eu.
     + apply mirror_bindr_ok; [now apply IH|]. intros a Ha. cbn [res_all].
       constructor; [|constructor]. split; cbn [pos caps]; [apply Ha|].
       apply mirror_cap_push_ok; [|apply Ha]. apply mirror_span_ok; [apply Hs|apply Ha].
-    + cbn [orb] in Hgu. rewrite Hgu.
-      apply mirror_bindr_ok; [now apply IH|]. intros a Ha.
-      destruct (cap_get u (caps a)); [constructor|]. cbn [res_all].
+    + apply mirror_bindr_ok; [now apply IH|]. intros a Ha.
+      pose proof (mirror_cap_get_ok e u _ (proj2 Ha)) as Hu.
+      destruct (cap_get u (caps a)) as [|top rest]; [constructor|]. cbn [res_all].
+      inversion Hu as [|x y Htop _]; subst.
       constructor; [|constructor]. split; cbn [pos caps]; [apply Ha|].
-      apply mirror_cap_pop_ok. apply Ha.
+      destruct (g =? -1).
+      * apply mirror_cap_pop_ok. apply Ha.
+      * apply mirror_cap_push_ok; [|apply mirror_cap_pop_ok; apply Ha].
+        apply mirror_balance_span_ok; [apply Hs|apply Ha|assumption].
   - (* Group *) cbn [sem]. now apply IH.
   - (* PosLook *) cbn [sem].
     pose proof (mirror_first_only_ok ok _ (IH t s Ht Hs)) as H.
@@ -868,17 +894,22 @@ Proof.
     + apply mirror_iter; try assumption. destruct Hs as [Hp _]. lia.
     + apply mirror_bindr with (ok := ok); [now apply Hb|now apply Hbo|].
       intros a Ha. cbn [pos mirror_st]. apply mirror_iter; try assumption. lia.
-  - (* Capture *) cbn [sem]. apply andb_prop in Ht. destruct Ht as [Hgu Ht].
+  - (* Capture *) cbn [sem].
     destruct (u =? -1) eqn:Eu.
     + apply mirror_bindr with (ok := ok); [now apply IH|now apply IHok|].
       intros a Ha. cbn [map_res map pos caps mirror_st]. do 2 f_equal.
       unfold mirror_st. cbn [pos caps]. f_equal.
       rewrite <- mirror_cap_push, mirror_span_span. reflexivity.
-    + cbn [orb] in Hgu. rewrite Hgu.
-      apply mirror_bindr with (ok := ok); [now apply IH|now apply IHok|].
+    + apply mirror_bindr with (ok := ok); [now apply IH|now apply IHok|].
       intros a Ha. cbn [caps mirror_st]. rewrite mirror_cap_get.
-      destruct (cap_get u (caps a)); [reflexivity|].
-      cbn [map map_res pos]. rewrite mirror_cap_pop. reflexivity.
+      pose proof (mirror_cap_get_ok e u _ (proj2 Ha)) as Hu.
+      destruct (cap_get u (caps a)) as [|top rest]; [reflexivity|].
+      inversion Hu as [|x y Htop _]; subst.
+      cbn [map map_res pos]. rewrite mirror_cap_pop.
+      destruct (g =? -1); [reflexivity|].
+      unfold mirror_st. cbn [pos caps].
+      rewrite mirror_balance_span by apply Htop.
+      rewrite mirror_cap_push. reflexivity.
   - (* Group *) cbn [sem]. now apply IH.
   - (* PosLook *) cbn [sem].
     rewrite (mirror_first_only mir _ _ (IH t s Ht Hs)).
@@ -1222,7 +1253,7 @@ Qed.
 End EndZ.
 
 (* ---------------------------------------------------------------------------------------------- *)
-(* What is NOT mirror-symmetric (concrete witnesses)                                              *)
+(* Concrete witnesses: a balancing group with a gap; EndZ has no mirror anchor                     *)
 (* ---------------------------------------------------------------------------------------------- *)
 (* a small concrete environment: ASCII letters are word characters, no sets, identity lower-casing *)
 Definition mirror_ex_env (t : list Z) (start : Z) (strict : bool) : env :=
@@ -1235,23 +1266,21 @@ Definition mirror_ex_env (t : list Z) (start : Z) (strict : bool) : env :=
 Definition mirror_ex_balance : node :=
   NConcat 0 [NCapture 0 1 (-1) (NChar COne 0 120); NChar COne 0 122; NCapture 0 2 1 (NChar COne 0 121)].
 
-(* Balancing groups that record a capture are NOT mirror-symmetric: left-to-right, group b gets the
-   text BETWEEN the popped capture and the new one, (1,1) = "z"; in the mirrored search (the
-   right-to-left pattern (?<b-a>y)z(?<a>x) on "yzx") [balance_span] = runner.go transferCapture takes
-   its second branch ("end <= start2: start = start2") and records index 2, length -1.
-   The real engine does the same (and its tidy step then drops the negative-length capture). *)
-(* UPDATE: transferCapture was repaired in /repo (cd1c469) and balance_span follows it: the second
-   branch now records the interval between the two spans, so this example IS mirror-symmetric. *)
+(* Balancing group with a gap: left-to-right, group b gets the text BETWEEN the popped capture and the
+   new one, (1,1) = "z"; the mirrored search (the right-to-left pattern (?<b-a>y)z(?<a>x) on "yzx")
+   pops a capture that lies to the RIGHT of the text just matched and records the same interval
+   ([balance_span]'s second branch = runner.go transferCapture "end <= start2", which before the
+   repair in /repo cd1c469 recorded index 2, length -1).  Instance of mirror_sem_partial. *)
 Theorem mirror_balance_example :
   let e := mirror_ex_env [120; 122; 121] 0 false in
   let s := {| pos := 0; caps := [] |} in
-  st_ok e s /\
+  mirror_ok mirror_ex_balance = true /\ st_ok e s /\
   map_res (map (mirror_st e)) (sem e 10 mirror_ex_balance s)
     = Ok [{| pos := 0; caps := [(1, []); (2, [(1, 1)])] |}] /\
   sem (mirror_env e) 10 (flip mirror_ex_balance) (mirror_st e s)
     = Ok [{| pos := 0; caps := [(1, []); (2, [(1, 1)])] |}].
 Proof.
-  cbv zeta. split; [|split; vm_compute; reflexivity].
+  cbv zeta. split; [reflexivity|]. split; [|split; vm_compute; reflexivity].
   split; [vm_compute; split; congruence|constructor].
 Qed.
 
